@@ -17,9 +17,22 @@ def blk_value(P):
                 for i in wf.blocks[cb]:
                     if i.op == 'call' and i.callee == 'sputc' and wf.const_of(i.ops[0]) is not None:
                         m[chr(wf.const_of(i.ops[0]))] = cv
-    if not {'b', 'g', 'p'} <= set(m):
+    if {'b', 'g', 'p'} <= set(m):
+        return {'BLK': m['b'], 'CHG': m['g'], 'REP': m['p']}
+    # the writer does not dispatch on the state with a switch (an if chain, a table): take the constants from the predicates of
+    # elem.h that define what the states mean -- valid parity + file: BLK; updated hash: BLK or REP; file: BLK, CHG or REP
+    def consts_of(name):
+        vs = P.variants(name) if hasattr(P, 'variants') else []
+        if not vs:
+            raise AnalysisBroken('cannot recover block state constants (%s not found)' % name)
+        g = vs[0]
+        return {g.const_of(i.ops[1]) for i in g.all_insts() if i.op == 'icmp' and i.pred in ('eq', 'ne') and g.const_of(i.ops[1]) is not None}
+    blk = consts_of('block_has_file_and_valid_parity')
+    upd = consts_of('block_has_updated_hash')
+    fil = consts_of('block_has_file')
+    if len(blk) != 1 or len(upd - blk) != 1 or len(fil - upd) != 1 or not blk <= upd <= fil:
         raise AnalysisBroken('cannot recover block state constants')
-    return {'BLK': m['b'], 'CHG': m['g'], 'REP': m['p']}
+    return {'BLK': list(blk)[0], 'CHG': list(fil - upd)[0], 'REP': list(upd - blk)[0]}
 
 
 ALLOWED_SETTERS = {
